@@ -19,6 +19,7 @@ type histPool struct {
 	singles  []string
 	probes   []string // state-sensitive probe streams (subset of singles)
 	files    []*ModelFile
+	badFiles []*ModelFile // Encode fails on these
 }
 
 type propC08 struct {
@@ -45,7 +46,7 @@ func (p *propC08) Assumptions() []string {
 	}
 }
 func (p *propC08) ProbeNames() []string {
-	return []string{"same input twice in a row", "component-bearing input preceded another decode", "Encode after Decode of another input", "Encode repeated on >= 3 union fields", "MarshalJSON twice", "Encode of an earlier result", "history length >= 10"}
+	return []string{"same input twice in a row", "component-bearing input preceded another decode", "Encode after Decode of another input", "Encode repeated on >= 3 union fields", "MarshalJSON twice", "Encode of an earlier result", "history length >= 10", "failed Encode followed by another Encode"}
 }
 
 func buildHistPool(seed uint64, big bool) *histPool {
@@ -109,6 +110,16 @@ func buildHistPool(seed uint64, big bool) *histPool {
 		r := NewRng(seed, "C08/file", i)
 		hp.files = append(hp.files, genModelFile(r, MFOpts{InDomain: true, MaxMsgs: 6, MaxFields: 8}))
 	}
+	// Files whose Encode fails part-way (a string that is not UTF-8, placed in a late
+	// message): whatever such a call leaves behind must not reach the next call
+	for i := 0; i < 2; i++ {
+		r := NewRng(seed, "C08/badfile", i)
+		mf := genModelFile(r, MFOpts{InDomain: true, FT: 4, MaxMsgs: 4, MaxFields: 6})
+		if pf := fieldByName(12, "Name"); pf != nil { // sport.name
+			mf.Msgs = append(mf.Msgs, MMsg{Global: 12, Fields: map[int]string{pf.SIndex: `s"caf\xe9 \xff"`}})
+		}
+		hp.badFiles = append(hp.badFiles, mf)
+	}
 	return hp
 }
 
@@ -151,6 +162,15 @@ func genOp(r *Rng, hp *histPool, id int, decodes []int, tasks []Task) Task {
 		rep := 1
 		if r.Chance(1, 2) {
 			rep = 16
+		}
+		switch r.Intn(6) {
+		case 0:
+			if len(hp.badFiles) > 0 {
+				return Task{ID: id, Call: "Encode", File: hp.badFiles[r.Intn(len(hp.badFiles))], Arch: arch}
+			}
+		case 1:
+			// a sink that fails at its 1st, 2nd or 3rd Write
+			return Task{ID: id, Call: "Encode", File: hp.files[r.Intn(len(hp.files))], Arch: arch, WriteFail: r.Range(1, 3)}
 		}
 		return Task{ID: id, Call: "Encode", File: hp.files[r.Intn(len(hp.files))], Arch: arch, Repeat: rep}
 	}
@@ -396,6 +416,16 @@ func (p *propC08) Check(sc *Scenario, st *Stats) []Violation {
 			}
 		}
 		st.ProbeIf(t.Call == "HeaderMarshalJSON", "MarshalJSON twice")
+		if t.Call == "Encode" && i > 0 && res[i] != nil {
+			for j := i - 1; j >= 0; j-- {
+				if pj := sc.Tasks[byID[sc.History[j]]]; pj.Call == "Encode" {
+					if res[j] != nil && res[j].ErrClass != "nil" {
+						st.Probe("failed Encode followed by another Encode")
+					}
+					break
+				}
+			}
+		}
 	}
 	st.ProbeIf(len(sc.History) >= 10, "history length >= 10")
 	if nontrivial {
